@@ -277,6 +277,9 @@ pub struct DeltaBitPacked {
     base: u64,
     /// Bit-packed deltas.
     deltas: BitPackedInts,
+    /// Number of encoded values (a single value has no deltas, so the deltas
+    /// alone cannot tell `[0]` from the empty sequence).
+    count: usize,
 }
 
 impl DeltaBitPacked {
@@ -287,6 +290,7 @@ impl DeltaBitPacked {
             return Self {
                 base: 0,
                 deltas: BitPackedInts::pack(&[]),
+                count: 0,
             };
         }
 
@@ -298,13 +302,17 @@ impl DeltaBitPacked {
 
         let deltas = BitPackedInts::pack(&delta_values);
 
-        Self { base, deltas }
+        Self {
+            base,
+            deltas,
+            count: values.len(),
+        }
     }
 
     /// Decodes back to the original values.
     #[must_use]
     pub fn decode(&self) -> Vec<u64> {
-        if self.deltas.is_empty() && self.base == 0 {
+        if self.count == 0 {
             return Vec::new();
         }
 
@@ -324,17 +332,13 @@ impl DeltaBitPacked {
     /// Returns the number of values.
     #[must_use]
     pub fn len(&self) -> usize {
-        if self.deltas.is_empty() && self.base == 0 {
-            0
-        } else {
-            self.deltas.len() + 1
-        }
+        self.count
     }
 
     /// Returns whether the encoding is empty.
     #[must_use]
     pub fn is_empty(&self) -> bool {
-        self.deltas.is_empty() && self.base == 0
+        self.count == 0
     }
 
     /// Returns the base value.
@@ -366,15 +370,16 @@ impl DeltaBitPacked {
     /// Serializes to bytes.
     pub fn to_bytes(&self) -> Vec<u8> {
         let delta_bytes = self.deltas.to_bytes();
-        let mut buf = Vec::with_capacity(8 + delta_bytes.len());
+        let mut buf = Vec::with_capacity(16 + delta_bytes.len());
         buf.extend_from_slice(&self.base.to_le_bytes());
+        buf.extend_from_slice(&(self.count as u64).to_le_bytes());
         buf.extend_from_slice(&delta_bytes);
         buf
     }
 
     /// Deserializes from bytes.
     pub fn from_bytes(bytes: &[u8]) -> io::Result<Self> {
-        if bytes.len() < 8 {
+        if bytes.len() < 16 {
             return Err(io::Error::new(
                 io::ErrorKind::InvalidData,
                 "DeltaBitPacked too short",
@@ -382,9 +387,14 @@ impl DeltaBitPacked {
         }
 
         let base = u64::from_le_bytes(bytes[0..8].try_into().unwrap());
-        let deltas = BitPackedInts::from_bytes(&bytes[8..])?;
+        let count = u64::from_le_bytes(bytes[8..16].try_into().unwrap()) as usize;
+        let deltas = BitPackedInts::from_bytes(&bytes[16..])?;
 
-        Ok(Self { base, deltas })
+        Ok(Self {
+            base,
+            deltas,
+            count,
+        })
     }
 }
 
